@@ -56,6 +56,9 @@ pub enum Grain {
     Uniform(usize),
     Script(Vec<Ans>),
     Choose(Menu),
+    /// before EVERY successful read, this many `Interrupted` answers in a row; then as much as fits
+    /// up to the given size
+    InterruptedBursts(u32, usize),
 }
 
 #[derive(Clone, Debug)]
@@ -185,6 +188,15 @@ impl Read for ScriptedSource<'_> {
                     Some(Ans::Deliver(k)) => Ans::Deliver(fit.min((*k).max(1))),
                     Some(Ans::Interrupt) => Ans::Interrupt,
                     None => Ans::Deliver(fit),
+                }
+            }
+            Grain::InterruptedBursts(k, size) => {
+                if st.script_pos < *k as usize {
+                    st.script_pos += 1;
+                    Ans::Interrupt
+                } else {
+                    st.script_pos = 0;
+                    Ans::Deliver(fit.min((*size).max(1)))
                 }
             }
             Grain::Choose(menu) => {
